@@ -16,7 +16,7 @@ From Coq Require Import ZArith Lia Bool List String.
 From NL.Model Require Import VM.
 From NL.Spec Require Import Sem Fragment Fragment2 Fragment2h Fragment3 Fragment4 ArithSpec.
 From NL.Spec Require ScopeSpec.
-From NL.Proofs Require VMStepProofs CompilerNames SymbolsProofs PoolProofs.
+From NL.Proofs Require VMStepProofs CompilerNames SymbolsProofs PoolProofs CompileCorrectH3 CompileCorrectH4.
 From NL.Proofs Require Import WordProofs OpsProofs AstInduction ControlProofs
   CompileCorrectA CompileCorrectB CompileCorrectC CompileCorrectH1 CompileCorrectJ1 CompileCorrectJ2.
 Open Scope Z_scope.
@@ -703,6 +703,208 @@ Section YFacts.
   Lemma yblock_loc_len : forall f b st y, yres_loc (length (y_loc y)) (yblock orc lit f st b y).
   Proof. intros. unfold yblock, yblock_g. destruct (is_nil b); apply (proj2 (proj2 (yeval_loc_len f))). Qed.
 End YFacts.
+
+(** * The heap of the evaluator only grows (any literal policy that grows; no fragment hypothesis) *)
+
+Definition yn (y : yst) : Z := n_alloc (hs_heap (y_m y)).
+
+Definition ygrow {A} (n0 : Z) (r : yres A) : Prop :=
+  match r with
+  | YOk _ y' | YBrk y' | YCnt y' | YRet _ y' => n0 <= yn y'
+  | YErr _ m | YFault _ m | YExcl _ m => n0 <= n_alloc (hs_heap m)
+  | YFuel => True
+  end.
+
+Lemma ygrow_weaken : forall A n0 n1 (r : yres A), n0 <= n1 -> ygrow n1 r -> ygrow n0 r.
+Proof. intros A n0 n1 r H Hr. destruct r; cbn [ygrow] in *; try exact I; lia. Qed.
+
+Lemma ygrow_bind : forall A B n0 (x : yres A) (k : A -> yst -> yres B),
+  ygrow n0 x -> (forall a y1, ygrow (yn y1) (k a y1)) -> ygrow n0 (ybind x k).
+Proof.
+  intros A B n0 x k Hx Hk. destruct x as [a y1|y1|y1|v y1|e m|f m|o m|]; cbn [ybind ygrow] in *; try exact Hx.
+  exact (ygrow_weaken _ _ _ _ Hx (Hk a y1)).
+Qed.
+
+(* the value-level functions of part H1 *)
+Definition hgrow (m : hst) (r : outcome (val * hst)) : Prop :=
+  match r with Ok x => n_alloc (hs_heap m) <= n_alloc (hs_heap (snd x)) | _ => True end.
+
+Lemma ygrow_lift_o : forall y r, hgrow (y_m y) r -> ygrow (yn y) (ylift_o y r).
+Proof.
+  intros y r H. destruct r as [[v m]| | |]; cbn [ylift_o ygrow hgrow snd fst] in *; unfold yn, y_out; cbn [y_m]; try lia; exact I.
+Qed.
+
+Lemma hgrow_lift_h : forall m r, CompileCorrectH3.nalloc_le (hs_heap m) r -> hgrow m (lift_h m r).
+Proof.
+  intros m r H. destruct r as [[v h]| | |]; cbn [lift_h bind hgrow snd fst CompileCorrectH3.nalloc_le] in *; try exact I.
+  unfold with_new_h. cbn [hs_heap]. exact H.
+Qed.
+
+Lemma hgrow_lift_p : forall m r, hgrow m (lift_p m r).
+Proof. intros m r. destruct r; cbn [lift_p bind hgrow snd]; try exact I. lia. Qed.
+
+Lemma hgrow_const : forall m v, hgrow m (h_const m v).
+Proof.
+  intros m v. unfold h_const. destruct v; try (cbn [hgrow snd]; lia).
+  apply hgrow_lift_h. apply CompileCorrectH3.nalloc_le_bind. intros t. apply CompileCorrectH3.alloc_str_grows.
+Qed.
+
+Lemma hgrow_array : forall m vs, hgrow m (Ok (h_array m vs)).
+Proof. intros m vs. unfold h_array. cbn [h_alloc hgrow snd hs_heap n_alloc]. lia. Qed.
+
+Lemma hgrow_bind : forall A m (e : outcome A) k, (forall a, hgrow m (k a)) -> hgrow m (bind e k).
+Proof. intros A m e k Hk. destruct e; cbn [bind hgrow]; try exact I. apply Hk. Qed.
+
+Lemma hgrow_index_get : forall m a i, hgrow m (h_index_get m a i).
+Proof.
+  intros m a i. unfold h_index_get. destruct i; try exact I. destruct a; try exact I.
+  - apply hgrow_bind. intros t. apply hgrow_bind. intros j. destruct (nth_error t (Z.to_nat j)); [|exact I].
+    apply hgrow_lift_h. apply CompileCorrectH3.alloc_str_grows.
+  - apply hgrow_bind. intros vs. apply hgrow_bind. intros j. destruct (nth_error vs (Z.to_nat j)); [|exact I].
+    cbn [hgrow snd]. lia.
+Qed.
+
+Lemma hgrow_index_set : forall m a i v, hgrow m (h_index_set m a i v).
+Proof.
+  intros m a i v. unfold h_index_set. destruct i; try exact I. destruct a; try exact I.
+  - apply hgrow_bind. intros t. apply hgrow_bind. intros j. destruct v; try exact I.
+    apply hgrow_bind. intros repl.
+    destruct (h_set (hs_heap m) l (OStr (firstn (Z.to_nat j) t ++ repl ++ skipn (S (Z.to_nat j)) t))) as [h'| | |] eqn:E;
+      cbn [bind hgrow snd set_heap_h hs_heap]; try exact I. rewrite (CompileCorrectH4.h_set_nalloc _ _ _ _ E). lia.
+  - apply hgrow_bind. intros vs. apply hgrow_bind. intros j.
+    destruct (h_set (hs_heap m) l (OArr (replace_nth (Z.to_nat j) v vs))) as [h'| | |] eqn:E;
+      cbn [bind hgrow snd set_heap_h hs_heap]; try exact I. rewrite (CompileCorrectH4.h_set_nalloc _ _ _ _ E). lia.
+Qed.
+
+Lemma hgrow_builtin : forall orc m b vs, hgrow m (h_builtin orc m b vs).
+Proof.
+  intros orc m b vs. unfold h_builtin. pose proof (CompileCorrectH3.call_builtin_grows orc b (hs_heap m) vs) as H.
+  destruct (call_builtin orc b (hs_heap m) vs) as [[[v h] t]| | |]; cbn [bind hgrow snd fst add_out with_new_h hs_heap] in *;
+    try exact I. exact H.
+Qed.
+
+Lemma yn_set : forall sy v y, yn (y_set sy v y) = yn y.
+Proof. intros sy v y. unfold y_set, yn. destruct (s_scope sy); reflexivity. Qed.
+
+Definition lit_grows (lit : const -> yst -> yres val) : Prop := forall k y, ygrow (yn y) (lit k y).
+
+Lemma lit_pool_grows : forall pl0, lit_grows (lit_pool pl0).
+Proof.
+  intros pl0 k y. unfold lit_pool. destruct (pool_find k pl0); [|exact I]. apply ygrow_lift_o. apply hgrow_const.
+Qed.
+
+Lemma lit_fresh_grows : lit_grows lit_fresh.
+Proof.
+  intros k y. unfold lit_fresh. destruct k; try exact I; apply ygrow_lift_o; apply hgrow_lift_h.
+  - apply CompileCorrectH3.alloc_float_grows.
+  - apply CompileCorrectH3.alloc_str_grows.
+Qed.
+
+Section YGrows.
+  Variable orc : oracle.
+  Variable lit : const -> yst -> yres val.
+  Hypothesis Hlit : lit_grows lit.
+
+  Ltac yg := solve [cbn [ygrow]; unfold yn, y_out; cbn [y_m]; lia | exact I].
+
+  Lemma ygrow_args : forall f, (forall st e y, ygrow (yn y) (yeval orc lit f st e y)) ->
+    forall l st y, ygrow (yn y) (yargs orc lit f st l y).
+  Proof.
+    intros f IHe. induction l as [|x r IH]; intros st y; [rewrite ya_nil; yg|].
+    rewrite ya_cons. apply ygrow_bind; [apply IHe|]. intros v y1.
+    destruct (compile_expression x st); try exact I. apply ygrow_bind; [apply IH|]. intros vs y2. yg.
+  Qed.
+
+  Lemma ygrow_block : forall f, (forall st l last y, ygrow (yn y) (ystmts orc lit f st l last y)) ->
+    forall st b y, ygrow (yn y) (yblock orc lit f st b y).
+  Proof. intros f IHs st b y. unfold yblock, yblock_g. destruct (is_nil b); apply IHs. Qed.
+
+  Lemma ygrow_call : forall f, (forall st l last y, ygrow (yn y) (ystmts orc lit f st l last y)) ->
+    forall fv vs y, ygrow (yn y) (ycall orc lit f fv vs y).
+  Proof.
+    intros f IHs fv vs y. unfold ycall, ycall_g. destruct fv as [| | |fip fnn| | |]; try yg.
+    destruct (fnn <? zlength vs); [yg|]. destruct (find_fun fip (y_funs y)) as [fe|]; [|exact I].
+    destruct (negb (fe_n fe =? fnn)); [exact I|]. destruct (Z.of_nat (length (fe_ps fe)) <? zlength vs); [yg|].
+    set (y0 := mkY (y_m y) (vs ++ repeat_val VNull (Z.to_nat (fnn - zlength vs))) (y_funs y)).
+    pose proof (ygrow_block f IHs (fe_st fe) (fe_body fe) y0) as Hb. unfold yblock in Hb.
+    destruct (yblock_g (ystmts orc lit f) (fe_st fe) (fe_body fe) y0); cbn [ygrow] in *; try exact I; exact Hb.
+  Qed.
+
+  Theorem yeval_grows : forall f,
+    (forall st e y, ygrow (yn y) (yeval orc lit f st e y)) /\
+    (forall st2 st4 c body last y, ygrow (yn y) (ywhile orc lit f st2 st4 c body last y)) /\
+    (forall st l last y, ygrow (yn y) (ystmts orc lit f st l last y)).
+  Proof.
+    induction f as [|f [IHe [IHw IHs]]].
+    - repeat split; intros; exact I.
+    - split; [|split].
+      + intros st e y.
+        destruct e as [e1 o e2|o e|z|fl|bb|cnd t alt|s|n ps body|h args|e1 e2|str|vs|bs i|cnd body].
+        * rewrite ye_infix.
+          assert (forall st0, ygrow (yn y) (ygeneric orc lit f e1 o e2 st0 y)) as Hg.
+          { intros st0. unfold ygeneric. apply ygrow_bind; [apply IHe|]. intros a y1.
+            destruct (compile_expression e1 st0); try exact I. apply ygrow_bind; [apply IHe|]. intros b y2.
+            unfold ybinop. destruct (is_fun a && is_fun b && is_eqop o); [yg|].
+            destruct (Sem.method_of o); [|yg]. apply ygrow_lift_o. apply hgrow_lift_h. apply CompileCorrectH3.binop_grows. }
+          destruct (fused_candidate e1 e2 o) as [[[name v] op']|]; [|apply Hg].
+          destruct (compile_const_var_infix name v op' st) as [st1 done]. destruct done; [|apply Hg].
+          unfold yfused. destruct (resolve (c_symbols st) name); [|exact I].
+          destruct (assoc operator_eqb op' fused_table); [|exact I].
+          destruct (assoc opcode_eqb o0 fused_dispatch); [|exact I].
+          apply ygrow_lift_o. apply hgrow_lift_h. apply CompileCorrectH3.binop_grows.
+        * rewrite ye_prefix. apply ygrow_bind; [apply IHe|]. intros v y1.
+          destruct o; try yg; try (apply ygrow_lift_o; apply hgrow_lift_h; apply CompileCorrectH3.negate_grows).
+          apply ygrow_lift_o. apply hgrow_lift_p.
+        * rewrite ye_int. yg.
+        * rewrite ye_float. apply Hlit.
+        * rewrite ye_bool. yg.
+        * rewrite ye_if. apply ygrow_bind; [apply IHe|]. intros b y1.
+          destruct (compile_expression cnd st) as [st1| | |]; try exact I.
+          destruct b as [|[|]| | | | |]; try yg.
+          -- apply ygrow_block. exact IHs.
+          -- destruct alt as [bl|]; [|yg]. destruct (if_st5 st1 t); try exact I. apply ygrow_block. exact IHs.
+        * rewrite ye_ident. destruct (resolve (c_symbols st) s); yg.
+        * rewrite ye_function. unfold yfunction. destruct (fun_st1 n st) as [st1 sym].
+          destruct (c_block_statement body (fun_st3 ps st1)); try exact I.
+          destruct sym; cbn [ygrow]; [rewrite yn_set|]; unfold yn; cbn [y_m]; lia.
+        * rewrite ye_call. apply ygrow_bind; [apply ygrow_args; exact IHe|]. intros vs y1.
+          destruct (builtin_of h); [apply ygrow_lift_o; apply hgrow_builtin|].
+          destruct (CompilerNames.compile_exprs args st); try exact I.
+          apply ygrow_bind; [apply IHe|]. intros fv y2. apply ygrow_call. exact IHs.
+        * destruct e1 as [| | | | | |x| | | | | |bs i|]; try (cbn [yeval]; yg).
+          -- rewrite ye_assign. destruct (resolve (c_symbols st) x); [|yg].
+             apply ygrow_bind; [apply IHe|]. intros v y1. cbn [ygrow]. rewrite yn_set. lia.
+          -- rewrite ye_assign_index. apply ygrow_bind; [apply IHe|]. intros a y1.
+             destruct (compile_expression bs st) as [st1| | |]; try exact I. apply ygrow_bind; [apply IHe|]. intros ix y2.
+             destruct (compile_expression i st1); try exact I. apply ygrow_bind; [apply IHe|]. intros v y3.
+             apply ygrow_lift_o. apply hgrow_index_set.
+        * rewrite ye_string. apply Hlit.
+        * rewrite ye_array. apply ygrow_bind; [apply ygrow_args; exact IHe|]. intros xs y1.
+          apply ygrow_lift_o. apply hgrow_array.
+        * rewrite ye_index. apply ygrow_bind; [apply IHe|]. intros a y1.
+          destruct (compile_expression bs st); try exact I. apply ygrow_bind; [apply IHe|]. intros ix y2.
+          apply ygrow_lift_o. apply hgrow_index_get.
+        * rewrite ye_while. destruct (compile_expression cnd (wh_st2 st)); try exact I. apply IHw.
+      + intros st2 st4 c body last y. rewrite yw_step. apply ygrow_bind; [apply IHe|]. intros b y1.
+        destruct b as [|[|]| | | | |]; try yg.
+        pose proof (ygrow_block f IHs st4 body y1) as Hb.
+        destruct (yblock orc lit f st4 body y1) as [v y2|y2|y2|v y2|e m|x m|o m|]; cbn [ygrow] in Hb |- *; try exact Hb.
+        * exact (ygrow_weaken _ _ _ _ Hb (IHw st2 st4 c body v y2)).
+        * exact (ygrow_weaken _ _ _ _ Hb (IHw st2 st4 c body VNull y2)).
+      + intros st l last y. destruct l as [|s r]; [rewrite ys_nil; yg|].
+        destruct s as [x e|e|e|b| |].
+        * rewrite ys_let. destruct (define (c_symbols st) x) as [t sym].
+          apply ygrow_bind; [apply IHe|]. intros v y1. destruct (compile_statement (SLet x e) st); try exact I.
+          rewrite <- (yn_set sym v y1). apply IHs.
+        * rewrite ys_return. apply ygrow_bind; [apply IHe|]. intros v y1. yg.
+        * rewrite ys_expr. apply ygrow_bind; [apply IHe|]. intros v y1.
+          destruct (compile_statement (SExpr e) st); try exact I. apply IHs.
+        * rewrite ys_block. apply ygrow_bind; [apply ygrow_block; exact IHs|]. intros v y1.
+          destruct (compile_statement (SBlock b) st); try exact I. apply IHs.
+        * rewrite ys_break. yg.
+        * rewrite ys_continue. yg.
+  Qed.
+End YGrows.
 
 Section WithPool.
 Variable pl : list (const * val).      (* the pool of the final program, with its run-time values *)
@@ -2913,19 +3115,22 @@ Section Sim.
     destruct (mk_step_call orc prog B tip2 ops y2 (code_len st2) fin2 fip n vs [] Hcall En) as [Hlim|Hstep].
     { (* the stack / frame limit: an excluded state *)
       fold sc0 in Hlim.
-      assert (exclL orc prog (mk B tip ops y (code_len st) fin)) as Hx
-        by (apply (reachesL_excl orc prog _ sc0 Hsc); apply exclL_now; left; exact Hlim).
-      destruct (yblock orc lit f (fe_st fe) (fe_body fe) y0) as [v y3|y3|y3|v y3|e o0|x o0|o0|]; cbn [body_res nosig] in *;
+      pose proof (ygrow_block orc lit f (proj2 (proj2 (yeval_grows orc lit (lit_pool_grows pl) f)))
+                    (fe_st fe) (fe_body fe) y0) as Hgb.
+      assert (forall Bd, yn y0 <= Bd -> exclL orc prog Bd (mk B tip ops y (code_len st) fin)) as Hx.
+      { intros Bd HB. apply (reachesL_excl orc prog _ _ sc0 Hsc).
+        apply (exclL_weaken orc prog (n_alloc (v_heap sc0)) Bd sc0 HB). apply exclL_now. left. exact Hlim. }
+      destruct (yblock orc lit f (fe_st fe) (fe_body fe) y0) as [v y3|y3|y3|v y3|e o0|x o0|o0 m0|]; cbn [body_res nosig ygrow] in *;
         try contradiction.
       - cbn [sim2].
         destruct (Hbody (code_len st2 + 2) (zlength (b_below B)) (b_rest B) eq_refl) as [fin3 [_ Hfo3]].
-        exists fin, tip. split; [right; exact Hx|exact Hfo3].
+        exists fin, tip. split; [right; apply Hx; exact Hgb|exact Hfo3].
       - cbn [sim2].
         destruct (Hbody (code_len st2 + 2) (zlength (b_below B)) (b_rest B) eq_refl) as [fin3 [_ Hfo3]].
-        exists fin, tip. split; [right; exact Hx|exact Hfo3].
-      - right. exact Hx.
-      - right. exact Hx.
-      - left. exact Hx.
+        exists fin, tip. split; [right; apply Hx; exact Hgb|exact Hfo3].
+      - right. apply Hx. exact Hgb.
+      - right. apply Hx. exact Hgb.
+      - left. apply Hx. exact Hgb.
       - exact I. }
     fold sc0 y0 B' s0 in Hstep.
     assert (reachesL orc prog (mk B tip ops y (code_len st) fin) s0) as Hs0
